@@ -1,6 +1,7 @@
 package main
 
 import (
+	"sync/atomic"
 	"fmt"
 	"go/types"
 	"sort"
@@ -495,6 +496,8 @@ func (fx *FnExec) finalizeAxioms() []string {
 	return out
 }
 
+var denseRetries int64
+
 func (fx *FnExec) buildQuery(o *Obligation, extra []string) string {
 	return fx.buildQueryMode(o, extra, false)
 }
@@ -642,11 +645,13 @@ func solveReport(rep *FnReport, opts solveOpts) {
 				o.Result = r
 				return
 			}
-			if r.Status != "unsat" && len(o.Hints) > 0 {
+			if r.Status != "unsat" && len(o.Hints) > 0 && atomic.AddInt64(&denseRetries, 1) <= 40 {
 				// second encoding: allocation takes the next unused address
+				// (a third of the budget, at most 40 retries per run: a tree on
+				// which dozens of obligations fail is reported without them)
 				h := *o
 				h.Assumes = append(append([]Term(nil), o.Assumes...), o.Hints...)
-				if r2 := Solve(fx.buildQuery(&h, extra), to, false); r2.Status == "unsat" {
+				if r2 := Solve(fx.buildQuery(&h, extra), to/3, false); r2.Status == "unsat" {
 					r2.Solver += "+dense"
 					r2.Time += r.Time
 					r = r2
